@@ -60,6 +60,16 @@ func findCacheShape(p *load.Program) *cacheShape {
 		}
 		ms := methodsOf(p, n)
 		sh.open, sh.stat = ms["Open"], ms["Stat"]
+		// the info memo is the sync.Map that Stat answers from (other tables, e.g. of poisoned names, are not it)
+		if sh.stat != nil {
+			ssax.Instrs(sh.stat, func(ins ssa.Instruction) {
+				if cl, ok := ins.(*ssa.Call); ok && ssax.CalleeIs(cl, "sync", "(*Map).Load") {
+					if fa, ok := cl.Call.Args[0].(*ssa.FieldAddr); ok {
+						sh.memoField = ssax.FieldName(fa)
+					}
+				}
+			})
+		}
 		for _, m := range ms {
 			// the fill function: unexported method that opens the cache for writing
 			if m.Object() != nil && !m.Object().Exported() {
@@ -450,6 +460,26 @@ func r11Fill(c *core.Ctx, p *load.Program, sh *cacheShape, ruleInvalidate, ruleC
 	})
 	c.Check(leak == "", ruleInvalidate, tk+".fill|invalidate-on-failure", p.Pos(create.Pos()), "every failing return after the cache file was created removes it first",
 		fmt.Sprintf("%s: after the cache file was created, the failing return at %s leaves it in the cache: the next Open finds it and serves the truncated copy", fname(fn), leak))
+	// the invalidation's own failure: a Remove whose error is discarded cannot tell the caller (or a later Open) that
+	// the partial file is still there — a cache store without RemoveFS, or one that is failing, keeps it
+	var discarded ssa.Instruction
+	ssax.InstrsDeep(fn, func(f *ssa.Function, ins ssa.Instruction) {
+		cl, ok := ins.(*ssa.Call)
+		if !ok {
+			return
+		}
+		if callee := ssax.StaticCallee(cl); callee != nil && callee.Name() == "Remove" && pkgPathOf(callee) == mod {
+			a := cl.Call.Args
+			if len(a) == 2 && isLoadOfNamedField(ssax.Unwrap(a[0]), sh.named, sh.cField) && !ssax.HasRealReferrers(cl) {
+				discarded = cl
+			}
+		}
+	})
+	if discarded != nil {
+		c.Bad(ruleInvalidate, tk+".fill|invalidation-result-read", p.Pos(discarded.Pos()), fmt.Sprintf("%s discards the result of removing the partial cache file: when the removal itself fails (a cache store without RemoveFS answers ErrNotImplemented, a failing store fails again) the partial file stays in the cache and the next Open serves it as complete", fname(fn)))
+	} else {
+		c.OK(ruleInvalidate, tk+".fill|invalidation-result-read", p.Pos(fn.Pos()), "the result of the invalidating Remove is read")
+	}
 	// R11.3
 	closed := false
 	good := false
